@@ -21,15 +21,25 @@ type Prop struct{}
 func (Prop) ID() string    { return "C07" }
 func (Prop) Level() string { return "exploration" }
 func (Prop) Configs(tier string) []string {
-	// sm2ec dispatch (default / non-ADX / fiat) and the SM3 KDF lane width (8 lanes with AVX2, 4 without).
-	return []string{"c-default", "c-noavx2", "c-nobmi2", "c-purego"}
+	// sm2ec dispatch (default / non-ADX / fiat) and the SM3 KDF lane width (8 lanes with AVX2, 4 without): full enumeration.
+	// c-sse and c-scalar select the two remaining SM3 block functions (SSSE3 without AVX, plain amd64) that C3 and the KDF
+	// run on; the elliptic-curve code is the same as under c-noavx2, so only the hash-bound part is enumerated there (runLite).
+	// The quick tier leaves c-scalar out: with five configurations the engine still cuts every configuration into four
+	// shards (ceil(16/5)), with six it would be three.
+	if tier != "thorough" {
+		return []string{"c-default", "c-noavx2", "c-nobmi2", "c-purego", "c-sse"}
+	}
+	return []string{"c-default", "c-noavx2", "c-nobmi2", "c-purego", "c-sse", "c-scalar"}
 }
 
 func (Prop) SelfTest() error {
 	if err := (c06.Prop{}).SelfTest(); err != nil {
 		return err
 	}
-	return selfTestRef()
+	if err := selfTestRef(); err != nil {
+		return err
+	}
+	return selfTestCurves()
 }
 
 func (Prop) Rule() string {
@@ -40,7 +50,13 @@ func (Prop) Rule() string {
 		"Constructive all-zero mask t (k searched until KDF=00..): such a string is not an output of the algorithm and B4 rejects it; library must reject. " +
 		"Rejection (E3): seeds (quick 3 keys x 4 lengths, thorough 12 keys x 7 lengths) x 5 layouts: every byte x {^01,^80} (thorough: 9-value substitution set + DER-aware edits of the ASN.1 form, all 255 values on the C1 region of 10 seeds, all 2-deviation mutants of one short ciphertext per layout), every truncation, extensions; structured C1 (off-curve, infinity encodings, x+p, negative, negated point, non-residue x, hybrid forms), wrong key. " +
 		"Oracle in both directions: library returns M' <=> strict layout parse + reference decryption (B1-B6) returns M'; hybrid C1 and empty C2 are left open (error or M'). Legacy math/big path (NIST P-256, bare and generic-methods-only curve object): reduced round trip, all-zero C2, rejection. " +
-		"distinct_nontrivial counts (key,length,option/layout), constructive (key,length,k) and (seed,mutation class,verdict) classes."
+		"Widened dimensions (DESIGN §11.4): (own/) every byte-slice argument of Encrypt / Decrypt / the converters / ParseEnvelopedPrivateKey in 5 placement classes {cap==len, one spare byte, 96 dirty spare bytes, record pre||arg||next field with the capacity reaching to the end, ending at a PROT_NONE page}: same result as the reference in every class, the argument and everything around it unchanged (after successful, failing and wrong-key calls), results disjoint from the arguments and from each other, same answer after the harness overwrote the previous result, a failing call followed by the good one on the same buffer, options and key objects unchanged; every byte string of the rejection enumeration is also compared with its copy after each call. " +
+		"(history/) every ordered pair of operations over the alphabet {10 encryption options, 13 decryption entry-point x layout combinations, 19 converter transitions, 9+3 failing calls} at lengths 1, 33 (thorough 257), and over {Encrypt, Decrypt plain, Decrypt ASN.1} x one length in each of 12 KDF block-count classes x two key objects used alternately (sizes up and down): the second operation must give the specified result. " +
+		"(variant/) zero-value and typed-nil option objects, a non-nil reader, the crypto.Decrypter interface, key objects from NewPrivateKey / NewPrivateKeyFromInt / GenerateKey / FromECPrivateKey / struct with a wrapped curve object x public keys from NewPublicKey / &priv.PublicKey / Public(), constructor arguments overwritten afterwards. " +
+		"(shape/) first k = 1,2,3.. whose x1, y1, x2 or y2 has a leading zero byte (thorough: two), C1 with x = 0 and with the smallest x >= 1 through every layout, entry point and converter; KDF block-count classes 14..17, 18, 20, 21, 24, 25, 31..33, 64, 65 blocks; message lengths on both sides of the DER length-octet boundaries 255/256 and 65535/65536 of the SEQUENCE and of the C2 OCTET STRING; 2, 3, 100, 101 consecutive restarts of the encryption loop (error, or the reference ciphertext of the next good scalar). " +
+		"(legacy/<curve>/) the math/big path on P-224, P-384, P-521 and on the SM2 parameters handed over as a plain *elliptic.CurveParams: round trip over 14 lengths (incl. l-1, l, l+1, 2l, 2l+1 for the field length l) and 9 options, edge candidate blocks, all-zero C2 / all-zero mask, leading-zero shapes, extreme C1, rejection (every byte x {^01,^80}, truncations, structured C1), ownership classes. " +
+		"Configurations c-sse and (thorough tier) c-scalar (the two remaining SM3 block functions) run the hash-bound subset: key 4 round trip over all lengths, length histories, message placement classes, one legacy round trip. " +
+		"distinct_nontrivial counts (key,length,option/layout), constructive (key,length,k), (seed,mutation class,verdict), (placement class, entry point), history-pair kinds and shape classes."
 }
 
 func (Prop) Assumptions() []string {
@@ -50,7 +66,11 @@ func (Prop) Assumptions() []string {
 		"supported C1 forms are uncompressed and compressed (property statement); a hybrid 06/07 prefix and an empty C2 are left open: error or the reference plaintext",
 		"the splicing order handed to Decrypt / the converters is the true one; decrypting with the wrong declared order is misuse and not enumerated",
 		"quick tier: all-zero-C2 with k=1..16 and 1-byte searched messages, rejection seeds 3 keys x 4 lengths with the {^01,^80} set; thorough: k=1..64, 2-byte searched messages (~65 536 trials each), rejection seeds 12 keys x 7 lengths with the 9-value substitution set and DER-aware edits, all 255 values on the first 72 bytes of 10 seeds, all 2-deviation mutants of the 5 layouts of one 1-byte-message ciphertext (66..107 bytes)",
-		"dispatch tiers: c-default, c-noavx2, c-nobmi2, c-purego; arm64/ppc64le/s390x assembly is not covered",
+		"dispatch tiers: c-default, c-noavx2, c-nobmi2, c-purego in full, c-sse and (thorough) c-scalar for the hash-bound subset; the other-curve families of the quick tier run under c-default and c-purego only (their arithmetic is math/big and the Go standard library, not the dispatch-dependent sm2ec; SM3 tiers are reached through the P-256 legacy cases everywhere); arm64/ppc64le/s390x assembly is not covered",
+		"ownership oracle: the library may not write to caller memory it was not given as a destination, results belong to the caller, the same inputs give the same outputs; AdjustCiphertextSplicingOrder with from == to returns its argument itself (an identity) and nothing is demanded of the memory of that result; spare capacity behind a *returned* slice is the caller's to overwrite",
+		"every point of the (prime order) group is [k]G for some k in [1,n-1], so a ciphertext whose C1 is any curve point - e.g. (0, sqrt(b)) - built with the private key is an output of the encryption algorithm even though k is unknown",
+		"other curves: NIST parameters are taken from the Go standard library (reference arithmetic cross-checked against crypto/elliptic in the self-test); candidate scalars are ceil(bitlen(n)/8) bytes with the excess high bits cleared (read from randFieldElement); the library may give up with an error after its own restart limit (100) - an error is not an output",
+		"history oracle: operations are deterministic functions of their arguments (the scalar is scripted), so any dependence on what ran before is a defect; a process whose state an earlier case already disturbed reports extra pair keys that the 5x confirmation in a fresh process discards",
 		"RNG failure answers belong to C12; hostile ASN.1 beyond single edits belongs to C13",
 	}
 }
@@ -174,7 +194,8 @@ type kctx struct {
 	idx  int
 	key  c06.Key
 	c    *ecref.Curve
-	g, p *c06.Table
+	g, p muler
+	bl   int // byte length of a field element; 0 stands for 32
 	pub  *ecdsa.PublicKey
 	priv *sm2.PrivateKey
 	dc   *decryptor
@@ -203,15 +224,18 @@ func (kc *kctx) refEncryptStream(blocks [][]byte, msg []byte) (refCT, *big.Int) 
 // (step A5 of the standard: "return to A1").
 func (kc *kctx) refEncryptStream2(blocks [][]byte, msg []byte) (refCT, *big.Int, bool) {
 	rd := engine.NewScriptReader(blocks...)
-	buf := make([]byte, 32)
+	buf := make([]byte, kc.nb())
 	restarted := false
 	for i := 0; i < 64; i++ {
 		io.ReadFull(rd, buf)
+		if excess := len(buf)*8 - kc.c.N.BitLen(); excess > 0 {
+			buf[0] >>= excess
+		}
 		k := new(big.Int).SetBytes(buf)
 		if k.Sign() == 0 || k.Cmp(kc.c.N) >= 0 {
 			continue
 		}
-		if ct, ok := fastEncryptWithK(kc.g, kc.p, k, msg); ok {
+		if ct, ok := fastEncryptWithKN(kc.bl, kc.g, kc.p, k, msg); ok {
 			return ct, k, restarted
 		}
 		restarted = true
@@ -512,7 +536,7 @@ func (kc *kctx) searchMask(target []byte, limit int) (int, ecref.Point, bool) {
 	s := ecref.Inf()
 	for k := 1; k <= limit; k++ {
 		s = kc.c.Add(s, kc.key.Pub)
-		if bytes.Equal(maskOf(s, len(target)), target) {
+		if bytes.Equal(maskOfN(kc.bl, s, len(target)), target) {
 			return k, s, true
 		}
 	}
@@ -683,11 +707,17 @@ func (rc *rejCtx) check(class, desc string, cand []byte) {
 		verdict = "open"
 	}
 	t.Nontrivial(rc.prefix + "reject/" + rc.l.String() + "/" + class + "/" + verdict)
+	orig := append([]byte{}, cand...)
 	for _, de := range rc.entries {
 		var got []byte
 		var err error
 		pv, frame := c06.Guarded(func() { got, err = de.f(rc.priv, cand) })
 		t.Eval(1)
+		if !bytes.Equal(cand, orig) {
+			// the byte string offered for decryption is the caller's, whatever the verdict
+			t.Fail(rc.prefix+"decrypt/hostile/input-modified", "%s changed the byte string it was given [%s / %s on a %s ciphertext]: %s became %s", de.name, class, desc, rc.l, engine.Hex(orig), engine.Hex(cand))
+			copy(cand, orig)
+		}
 		if pv != nil {
 			t.Fail(rc.prefix+"decrypt/hostile/panic@"+frame, "%s panicked (%v) on [%s / %s on a %s ciphertext]: %s", de.name, pv, class, desc, rc.l, engine.Hex(cand))
 			continue
@@ -838,7 +868,7 @@ func smallXPoint(c *ecref.Curve) ecref.Point {
 
 // ctFor builds, with the private key, the ciphertext that the encryption algorithm emits when its C1 is q.
 func ctFor(dc *decryptor, q ecref.Point, msg []byte) (refCT, bool) {
-	return sealWith(q, dc.shared(q), msg)
+	return sealWithN(dc.bl, q, dc.shared(q), msg)
 }
 
 func structuredC1Case(t *engine.T, ki int) {
@@ -925,6 +955,10 @@ func structuredC1Case(t *engine.T, ki int) {
 // Run
 
 func (Prop) Run(c *engine.Ctx) {
+	if liteConfig(c.Config) {
+		runLite(c)
+		return
+	}
 	lens := msgLens()
 	nk := len(c06.Keys())
 	for ki := 0; ki < nk; ki++ {
@@ -983,4 +1017,7 @@ func (Prop) Run(c *engine.Ctx) {
 		}
 	}
 	runLegacy(c)
+	runWiden(c)
+	runShapes(c)
+	runCurves(c)
 }
